@@ -176,7 +176,7 @@ def run(tier, seed, replay=None):
     KIND = {0: 'regular', 1: 'reduce_only_order_on_the_positions_own_side', 2: 'oversize_reduce_only_exit', 3: 'position_flip', 4: 'reduce_only_order_opens'}
     MON = {1: 'hook_grammar', 2: 'hooks_do_not_match_the_fills', 3: 'closed_trades_are_not_the_cycles_of_the_fills', 4: 'wallet_differs_from_start_plus_net_pnl_of_closed_trades'}
     sessions = 30 if tier == 'quick' else 400
-    scases, smeta, sess_err, py_viol, runaway = [], [], [], [], 0
+    scases, smeta, sess_err, py_viol, runaway, py_open = [], [], [], [], 0, []
     for k in range(sessions):
         sc = E.gen_script(rng, rng.randrange(1 << 30))
         sc['digest'] = False
@@ -184,6 +184,9 @@ def run(tier, seed, replay=None):
         if k % 3 == 0:
             # keep the declared exits inside the position: regular sessions
             sc['exit_style'] = 'on_open'; sc['modify'] = rng.choice(['none', 'on_reduce']); sc['points'] = 1
+        if k % 6 in (1, 4):
+            # no exits at all: the position (short for k % 6 == 1, long for 4) is still open at the last candle and is closed by the forced close
+            sc.update({'side': 'short' if k % 6 == 1 else 'long', 'exit_style': 'none', 'liquidate_every': 0, 'modify': 'none', 'cancel_entry': 'never', 'offs': [0], 'points': 1})
         cs = E.gen_candles(rng, rng.choice([120, 240]))
         kw = dict(exchange_type='futures', leverage=rng.choice([1, 2, 5]), fee=rng.choice([0.0, 0.001]), fast=rng.random() < 0.3)
         tf = rng.choice(['1m', '3m', '5m'])
@@ -204,6 +207,10 @@ def run(tier, seed, replay=None):
                            'entry': f(t['entry']), 'exit': f(t['exit']), 'pnl': f(t['pnl'])})
         wallet = out['final']['USDT']
         flat = all(v == 0 for v in out.get('positions', {}).values())
+        if not flat:
+            # forced close at session end: a session that ran to its end leaves no position open (Strategy._terminate closes it with a market order,
+            # which is one more fill of the last cycle, reported through on_close_position and recorded as that cycle's closed trade)
+            py_open.append({'script': sc, 'timeframe': tf, 'candles': cs, 'positions_after_the_session': out.get('positions'), 'last_fills': fills[-3:], 'last_hooks': hooks[-3:], **kw})
         scases.append((kw['fee'], 10000.0, fills, hooks, trades, wallet, flat))
         meta = {'script': sc, 'timeframe': tf, 'candles': cs, 'fills': fills, 'hooks': hooks, 'trades': trades, 'final_wallet': wallet, 'flat_at_end': flat, **kw}
         smeta.append(meta)
@@ -235,6 +242,8 @@ def run(tier, seed, replay=None):
     res.oblige('C06 session monitor files evaluated', not serrs, '\n'.join(serrs[:3]))
     res.oblige('sessions ran without an engine error', not sess_err, json.dumps(sess_err[:2], default=str)[:600])
     seen = set()
+    if py_open:
+        res.violation('position_left_open_after_the_session', 'a session that ran to its end leaves a position open: the forced close at session end did not close the last cycle', py_open[0])
     for site, rep in obj_viol:
         if site in seen: continue
         seen.add(site)
